@@ -13,8 +13,9 @@
 (* comprehensions over the store) and `want_dev` is the implementation-    *)
 (* shaped layer: the exporters' loops written out as the code runs them    *)
 (* (prometheus.go Collect, graphite.go metricToGraphite, json.go), with    *)
-(* the code's departures switched on by the DEV_ constants.  With all DEV_ *)
-(* constants FALSE TLC checks  implementation = ideal  (Refines...), with   *)
+(* the code's departures named in Explain (the open findings) switched on. *)
+(* The DEV_ constants switch the same departures for the invariants: with  *)
+(* all of them FALSE TLC checks  implementation = ideal  (Refines...), with *)
 (* one TRUE it must produce the store on which they differ.                *)
 (*                                                                         *)
 (* Abstract atoms (the harness owns the total, injective map to concrete   *)
@@ -38,7 +39,13 @@ CONSTANTS MaxMetrics, MaxLsets, MaxKeys, MaxObs,
           Mode,          \* "prom" (C13) or "formats" (C22): which expectations are printed
           Random,        \* TRUE under -simulate: every choice is one random element
           EmitCases,
+          Explain,       \* names of the deviations `want_dev` is computed with (the open findings); the DEV_ constants
+                         \* below switch the same branches for the Refines... invariants
+          SharedNames,   \* generator: let metrics of different programs reach one exported name from different store
+                         \* names ("a-b" and "a_b") or with different key lists
           DEV_CollectDropsRestOfMetric,       \* prometheus.go Collect `return nil` on an unrepresentable label set
+          DEV_FamilyHelpFromSource,           \* prometheus.go Collect: HELP is "defined at <source>" of the first metric of a STORE name
+          DEV_WriteNeedsEqualKeys,            \* prometheus.go Write: registers the collector's descriptors before gathering
           DEV_GraphiteHistogramFirstLabelSet, \* graphite.go metricToGraphite reads m.LabelValues[0].Value
           DEV_JsonFailsOnNonFinite            \* json.go: encoding/json rejects NaN/Inf, the whole store answers 500
 
@@ -56,6 +63,10 @@ NonUtf8Vals  == {"nonutf8"}
 NonFinite    == {"nan", "pinf", "ninf"}
 \* the exported Prometheus name: hyphens replaced by underscores
 ExportName(n) == IF n = "a-b" THEN "a_b" ELSE n
+DevSet == {d \in {"DEV_CollectDropsRestOfMetric", "DEV_FamilyHelpFromSource", "DEV_WriteNeedsEqualKeys"} :
+             \/ d = "DEV_CollectDropsRestOfMetric" /\ DEV_CollectDropsRestOfMetric
+             \/ d = "DEV_FamilyHelpFromSource" /\ DEV_FamilyHelpFromSource
+             \/ d = "DEV_WriteNeedsEqualKeys" /\ DEV_WriteNeedsEqualKeys}
 
 Idx(s) == 1..Len(s)
 Pairs(m, ls) == {<<m.keys[i], ls.labels[i]>> : i \in Idx(m.keys)}
@@ -103,6 +114,27 @@ CollectMetric(m, j, c, dev) ==
             ELSE CollectMetric(m, j + 1, c, dev)                     \* leave it out, keep ranging
        ELSE {Sample(m, m.lsets[j], c)} \cup CollectMetric(m, j + 1, c, dev)
 PromImpl(s, c, dev) == UNION {IF s[i].kind = "Text" THEN {} ELSE CollectMetric(s[i], 1, c, dev) : i \in Idx(s)}
+
+(* The two ways the samples of Collect reach a scraper, D = the set of deviations switched on.                 *)
+(*   "metrics": mtail.go registers the exporter while the store is empty (an unchecked collector), promhttp    *)
+(*              gathers; the registry insists on ONE help text per family and answers 500 otherwise.           *)
+(*   "write":   Exporter.Write (one-shot output) registers the exporter with the store filled, so Collect's     *)
+(*              descriptors are checked first: one exported name must have one help text and one label-name set.*)
+Emits(m, c, D) == m.kind # "Text" /\ CollectMetric(m, 1, c, "DEV_CollectDropsRestOfMetric" \in D) # {}
+Clash(s, c, D, Differ(_, _)) ==
+  \E i, j \in Idx(s) : /\ i # j /\ ExportName(s[i].name) = ExportName(s[j].name)
+                        /\ Emits(s[i], c, D) /\ Emits(s[j], c, D) /\ Differ(s[i], s[j])
+\* Collect keeps the help text of the first metric while the STORE name stays the same (`lastMetric != m.Name`)
+HelpClash(s, c, D) == Clash(s, c, D, LAMBDA a, b : a.name # b.name)
+KeyClash(s, c, D)  == Clash(s, c, D, LAMBDA a, b : {a.keys[i] : i \in Idx(a.keys)} # {b.keys[i] : i \in Idx(b.keys)})
+Failed == [ok |-> FALSE, samples |-> {}]
+PromPaths(s, c, D) ==
+  LET all == [ok |-> TRUE, samples |-> PromImpl(s, c, "DEV_CollectDropsRestOfMetric" \in D)]
+      helpBad == "DEV_FamilyHelpFromSource" \in D /\ HelpClash(s, c, D)
+      keysBad == "DEV_WriteNeedsEqualKeys" \in D /\ KeyClash(s, c, D)
+  IN [metrics |-> IF helpBad THEN Failed ELSE all,
+      write   |-> IF helpBad \/ keysBad THEN Failed ELSE all]
+IdealPaths(s, c) == [metrics |-> [ok |-> TRUE, samples |-> PromIdeal(s, c)], write |-> [ok |-> TRUE, samples |-> PromIdeal(s, c)]]
 
 -----------------------------------------------------------------------------
 (* C22, ideal layer: one record per label set carrying ITS datum *)
@@ -155,36 +187,46 @@ KindTypes == {KTTable[n] : n \in KindTypeNames}
 BTable == [b12 |-> <<1, 2>>, b0510 |-> <<0, 5, 10>>, b3 |-> <<3>>, none |-> <<>>]
 BoundLists == {BTable[n] : n \in BoundNames}
 Pick(S) == IF Random /\ S # {} THEN {RandomElement(S)} ELSE S
-KeySeqs == UNION {{ks \in [1..n -> KeyNames] : \A i, j \in 1..n : i # j => ks[i] # ks[j]} : n \in 0..MaxKeys}
+\* under -simulate three choices out of four avoid the atoms that make a label set unrepresentable,
+\* so that most sampled stores have something to export (exhaustive runs take every element)
+WPick(S, IsBad(_)) ==
+  IF ~Random \/ S = {} THEN S
+  ELSE LET good == {x \in S : ~IsBad(x)} IN
+       IF good # {} /\ RandomElement(1..4) > 1 THEN {RandomElement(good)} ELSE {RandomElement(S)}
+KeySeqsOf(n) == {ks \in [1..n -> KeyNames] : \A i, j \in 1..n : i # j => ks[i] # ks[j]}
+BadName(n) == n \in InvalidNames
+BadKeys(ks) == \E i \in DOMAIN ks : ks[i] \in InvalidKeys \cup {"prog"}
+BadLabels(lv) == \E i \in DOMAIN lv : lv[i] \in NonUtf8Vals
 TokensOf(type) == CASE type = "Int" -> IntToks [] type = "Float" -> FloatToks [] OTHER -> {"str"}
 \* a histogram label set exists because something was observed: at least one observation
 ObsSeqs == UNION {[1..n -> ObsVals] : n \in 1..MaxObs}
 
-\* the premise of C13 / the rules of Store.Add: one exported name = one store name, one kind, one key list, and
-\* series are told apart by the program label
+\* the premise of C13 / the rules of Store.Add: metrics that share an exported name have one kind and are told apart
+\* by the program label; unless SharedNames they also share the store name and the key list
 Admissible(n, p, kt, ks) ==
   \A i \in Idx(store) :
      ExportName(store[i].name) = ExportName(n) =>
-        /\ store[i].name = n /\ store[i].kind = kt[1] /\ store[i].keys = ks
-        /\ store[i].prog # p /\ ~cfg.omitProg
+        /\ store[i].kind = kt[1] /\ store[i].prog # p /\ ~cfg.omitProg
+        /\ SharedNames \/ (store[i].name = n /\ store[i].keys = ks)
 
 Init == /\ store = <<>> /\ uid = 0
         /\ cfg \in [omitProg : BOOLEAN, emitTs : BOOLEAN, host : Hosts, prefix : Prefixes]
 
 AddMetric ==
   /\ Len(store) < MaxMetrics
-  /\ \E n \in Pick(Names), p \in Pick(Progs), kt \in Pick(KindTypes), ks \in Pick(KeySeqs) :
+  /\ \E n \in WPick(Names, BadName), p \in Pick(Progs), kt \in Pick(KindTypes), nk \in Pick(0..MaxKeys) :
+     \E ks \in WPick(KeySeqsOf(nk), BadKeys) :
        /\ Admissible(n, p, kt, ks)
        /\ \E b \in Pick(IF kt[2] = "Buckets" THEN BoundLists ELSE {<<>>}) :
             store' = Append(store, [name |-> n, prog |-> p, kind |-> kt[1], type |-> kt[2], keys |-> ks,
                                     bounds |-> b, lsets |-> <<>>])
   /\ UNCHANGED <<cfg, uid>>
 
+FreeLabels(m) == [Idx(m.keys) -> LabelVals] \ {m.lsets[j].labels : j \in Idx(m.lsets)}
 AddLabelSet ==
-  /\ \E i \in Pick(Idx(store)) :
+  /\ \E i \in Pick({k \in Idx(store) : Len(store[k].lsets) < MaxLsets /\ FreeLabels(store[k]) # {}}) :
        LET m == store[i] IN
-       /\ Len(m.lsets) < MaxLsets
-       /\ \E lv \in Pick([Idx(m.keys) -> LabelVals] \ {m.lsets[j].labels : j \in Idx(m.lsets)}) :
+       /\ \E lv \in WPick(FreeLabels(m), BadLabels) :
           \E tok \in Pick(TokensOf(m.type)), ob \in Pick(IF m.type = "Buckets" THEN ObsSeqs ELSE {<<>>}) :
             store' = [store EXCEPT ![i].lsets =
                         Append(@, [labels |-> lv, val |-> [tok |-> tok, uid |-> uid + 1, n |-> 0], obs |-> ob, ts |-> uid + 1])]
@@ -212,7 +254,7 @@ HistOK == \A p \in AllLS(store) :
               /\ Cum(m, ls, NB(m)) = Len(ls.obs)
               /\ SumSeq([i \in 1..NB(m) |-> Count(m, ls, i)]) = Len(ls.obs)
 \* implementation-shaped = ideal (all deviations off); a deviation switched on must break its line
-RefinesProm     == PromImpl(store, cfg, DEV_CollectDropsRestOfMetric) = PromIdeal(store, cfg)
+RefinesProm     == PromPaths(store, cfg, DevSet) = IdealPaths(store, cfg)
 RefinesGraphite == GraphiteImpl(store, DEV_GraphiteHistogramFirstLabelSet) = GraphiteIdeal(store)
 RefinesJson     == JsonImpl(store, DEV_JsonFailsOnNonFinite) = JsonIdeal(store)
 
@@ -221,11 +263,13 @@ Emit == EmitCases =>
      IF Mode = "prom"
      THEN [store |-> store, cfg |-> cfg,
            want |-> PromIdeal(store, cfg),
-           want_dev |-> PromImpl(store, cfg, DEV_CollectDropsRestOfMetric)]
+           want_dev |-> PromPaths(store, cfg, Explain),
+           \* the open deviations without which this store would be exported as the ideal says
+           blame |-> {d \in Explain : PromPaths(store, cfg, Explain \ {d}) # PromPaths(store, cfg, Explain)}]
      ELSE [store |-> store, cfg |-> cfg,
            want |-> [json |-> JsonIdeal(store), varz |-> VarzIdeal(store, cfg), graphite |-> GraphiteIdeal(store),
                      scalar |-> ScalarIdeal(store)],
-           want_dev |-> [json |-> JsonImpl(store, DEV_JsonFailsOnNonFinite), varz |-> VarzIdeal(store, cfg),
-                         graphite |-> GraphiteImpl(store, DEV_GraphiteHistogramFirstLabelSet),
+           want_dev |-> [json |-> JsonImpl(store, "DEV_JsonFailsOnNonFinite" \in Explain), varz |-> VarzIdeal(store, cfg),
+                         graphite |-> GraphiteImpl(store, "DEV_GraphiteHistogramFirstLabelSet" \in Explain),
                          scalar |-> ScalarIdeal(store)]])>>)
 =============================================================================
